@@ -70,3 +70,58 @@ for k, nm in enumerate(C05_OPS):
           gxx_exclude=['operations/arith_%s.cc' % nm], covers=[2] + ([1] if nm == 'div' else []),
           desc='MT real policy mt_%s<float>: both operands any finite real terminal (all non-NaN, non-inf float patterns through the handle encoding)' % nm)
 
+for pess in (0, 1):
+    for k, tier, to in ((4, 'quick', 1800), (6, 'thorough', 7200)):
+        J('C06', 'c06_headers_%s_k%d' % ('pess' if pess else 'opt', k), 'c06_headers.cc', 'c06_headers',
+          units=['node_headers.cc', 'arrays.cc', 'error.cc', 'memstats.cc', 'statset.cc'], unit_defines={'MEDDLY_VERIF_NH_START': 4},
+          defines={'NSTEPS': k, 'PESS': pess}, gxx_units=['ALL'], gxx_extra=['-Wl,--allow-multiple-definition'], unwind=6, tier=tier, timeout=to,
+          covers=([3] + ([4] if pess else []) if k >= 4 else []),
+          desc='node_headers (%s), initial handle arrays of 4 entries (hook H5), history of %d nondet steps from {new node, link, unlink, cache, uncache} over handles 1..3; owner forest is a record with a stand-in deleteNode' % ('pessimistic' if pess else 'optimistic', k))
+
+# ---------------------------------------------------------------- C01 / C02
+for k, tier, to in ((4, 'quick', 1800), (6, 'thorough', 7200)):
+    J('C01', 'c01_ut_k%d' % k, 'c01_ut.cc', 'c01_ut', units=['unique_table.cc', 'node_headers.cc', 'arrays.cc', 'node_storage.cc', 'error.cc', 'memstats.cc', 'statset.cc'],
+      unit_defines={'MEDDLY_VERIF_NH_START': 8}, defines={'NSTEPS': k, 'NITEMS': 4 if k <= 4 else 5}, gxx_units=['ALL'], unwind=(6 if k <= 4 else 7), unwindset={'__ll2c_memzero_uint32_t.0': 10, '__ll2c_memset.0': 10, '_ZN6MEDDLY12unique_table8subtable13convertToListEv.0': 18, '_ZN6MEDDLY12unique_table8subtable6expandEv.0': 10, '_ZNK6MEDDLY12unique_table8subtable8getItemsEPij.0': 18}, tier=tier, timeout=to, covers=[1, 2, 3] if k >= 4 else [2],
+      desc='unique_table::subtable with 4 (quick) / 5 (thorough) candidate nodes whose hashes (32-bit) and equivalence classes are symbolic; %d nondet steps of find-then-add / remove / find; growth threshold lowered to 1..3 so expand() and shrink() rehash inside the bound' % k)
+for kind in (0, 1):
+    for pat in range(1, 8):
+        for opt in range(3):
+            for root in ('c01_hash', 'c01_codec'):
+                J('C01', '%s_%s_p%d_o%d' % (root, 'mt' if kind == 0 else 'evp', pat, opt), 'c01_hash.cc', root,
+                  units=['unpacked_node.cc', 'memory_managers/orig_grid.cc', 'memory.cc', 'memstats.cc', 'error.cc', 'node_storage.cc', 'edge_value.cc'],
+                  unit_defines={'MEDDLY_VERIF_ARENA': 48, 'MEDDLY_VERIF_HASHLOG': 1}, arena=('uint32_t', 48), defines={'KIND': kind, 'PAT': pat, 'OPT': opt},
+                  gxx_units=['ALL'], gxx_exclude=['storage/simple.cc'], unwind=6 if root == 'c01_codec' else 14, timeout=1800,
+                  tier='quick' if (kind == 0 and ((root == 'c01_hash' and pat in (5, 7)) or (root == 'c01_codec' and pat in (2, 5, 7)))) else 'thorough',
+                  desc='%s node of a level of size 3, shape %s (1 = non-transparent child), children%s symbolic; storage option %s%s' % (
+                      'MT' if kind == 0 else 'EV+ (long, hashed edge values)', format(pat, '03b')[::-1], '' if kind == 0 else ' and edge values',
+                      ['FULL_ONLY', 'SPARSE_ONLY', 'FULL_OR_SPARSE'][opt], '; second symbolic node of any shape for the duplicate test' if root == 'c01_codec' else ''))
+J('PROBE', 'probe_f', 'probe_f.cc', 'probe_f', units=['ALL'], unit_defines={'MEDDLY_VERIF_NH_START': 8, 'MEDDLY_VERIF_ARENA': 64}, unwind=70, timeout=3000, mem_gb=24, tv=0, object_bits=12, tier='probe')
+for slot in range(4):
+    J('C01', 'c01_hashstream_s%d' % slot, 'c01_hashstream.cc', 'c01_hashstream', units=['error.cc'], defines={'SLOT': slot}, unwind=4, timeout=600, covers=[], backend='z3',
+      desc='real hash_stream from an arbitrary state (3 x 32-bit words) with slot == %d: pair push == two single pushes; byte-block push == word pushes' % slot)
+C05_EVP = ['plus', 'minus', 'mult', 'div', 'mod', 'max', 'min']
+for k, nm in enumerate(C05_EVP):
+    J('C05', 'c05_evplus_' + nm, 'c05_evplus.cc', 'c05_evplus', units=['error.cc', 'edge_value.cc'], defines={'OP': k}, unwind=3, timeout=900, gxx_units=['ALL'],
+      backend=('z3' if nm in ('mult', 'div', 'mod') else 'sat'), gxx_exclude=['operations/arith_%s.cc' % nm], covers=[1],
+      desc='EV+ policy evplus_%s<long>: both operands any extended integer (infinity, or any finite value with |v| < %s)' % (nm, '2^31' if nm in ('mult', 'div', 'mod') else '2^62'))
+
+# ---------------------------------------------------------------- C16 (L1: error paths)
+J('C16', 'c16_checks', 'c16_checks.cc', 'c16_checks', units=['error.cc'], unwind=3, timeout=600, gxx_units=['ALL'], covers=[1, 2, 3],
+  desc='binary_operation::check{Domains,AllRelations,Relations,AllLabelings,Labelings,AllRanges,AllEdgeTypes} on three forest records with symbolic attributes (2 domains x set/relation x 3 range types x 4 labelings x 5 edge types each)')
+# the error paths of the scalar kernels (DIVIDE_BY_ZERO, VALUE_OVERFLOW, SUBTRACT_INFINITY, INFINITY_DIV_INFINITY) and of the terminal codec
+import copy as _copy
+for _j in list(JOBS):
+    if _j.name in ('c05_mt_long_div', 'c05_mt_long_mod', 'c05_mt_real_div', 'c05_mt_long_plus', 'c05_mt_long_mult', 'c05_evplus_minus', 'c05_evplus_div', 'c05_evplus_mod',
+                   'c19_int_roundtrip', 'c19_bool'):
+        _k = _copy.copy(_j); _k.prop = 'C16'; _k.name = 'c16_' + _j.name; JOBS.append(_k)
+for root, cov in (('c19_edge_mt', [1, 2, 3, 4]), ('c19_edge_ev', [1, 2, 3])):
+    J('C19', root, 'c19_edges.cc', root, units=['forest.cc', 'error.cc', 'edge_value.cc'], unwind=3, timeout=900, gxx_units=['ALL'], covers=cov,
+      desc='forest::getEdgeForValue / getValueForEdge (real forest.cc) on forest records of every labeling; value symbolic at full width (64-bit integers, all non-NaN floats, +infinity)')
+
+# C02 shares the codec / hash-agreement harness with C01
+for _j in list(JOBS):
+    if _j.prop == 'C01' and (_j.name.startswith('c01_codec_') or _j.name.startswith('c01_hash_')):
+        _k = _copy.copy(_j); _k.prop = 'C02'; _k.name = 'c02_' + _j.name[4:]
+        if _j.name.startswith('c01_hash_'): _k.tier = 'thorough' if not (_j.tier == 'quick' and '_p7_' in _j.name) else 'quick'
+        JOBS.append(_k)
+JOBS[:] = [j for j in JOBS if not (j.prop == 'C01' and j.name.startswith('c01_codec_') and j.tier == 'quick' and '_p2_' in j.name)]
